@@ -3,6 +3,9 @@ import asyncio
 import copy
 import sys
 
+import os
+import shutil
+
 import plumpy
 from plumpy import loaders, persistence
 from plumpy.persistence import Savable, SavableFuture, auto_persist
@@ -24,10 +27,25 @@ RULE += ('; also: members declared from the persist() hook or saved manually, an
 ASSUMPTIONS = ['custom loaders are constructible without arguments (the saved state records the loader class)', 'exceptions compare by type and args']
 REQUIRED = ['roundtrips', 'kinds/plain', 'kinds/method', 'kinds/savable', 'kinds/future', 'future_states/pending', 'future_states/result',
             'future_states/exception', 'future_states/exception-falsy', 'future_states/cancelled', 'future_states/result-savable', 'manually_saved', 'hook_declared', 'loader/default', 'loader/global', 'loader/persave', 'loader/unknown', 'loader/ctxreuse',
-            'mutation_probes', 'inherited_checks', 'rebound_name_probes', 'second_saves_same_context', 'refusing_loader_probes', 'global_loader_derived_from_recorded', 'loader/persave-anon', 'registry_loader_probes', 'foreign_method_probes', 'loaded_before_any_save_of_the_class', 'extended_context_copies']
+            'mutation_probes', 'inherited_checks', 'rebound_name_probes', 'second_saves_same_context', 'refusing_loader_probes', 'global_loader_derived_from_recorded', 'loader/persave-anon', 'registry_loader_probes', 'foreign_method_probes', 'loaded_before_any_save_of_the_class', 'extended_context_copies', 'unimportable_module_probes']
 BOUNDS = {'quick': '150 shapes x 4 loader modes', 'thorough': '3000 shapes x 4 loader modes'}
 
-PLAIN_VALUES = [1, 's', None, [1, [2, 3]], {'k': [1, 2], 'd': {'e': 5}}, (1, 2), [], {}, ('run', [10, 20], {'depth': 1}), {'t': ([1], 2)}]
+PLAIN_VALUES = [1, 's', None, [1, [2, 3]], {'k': [1, 2], 'd': {'e': 5}}, (1, 2), [], {}, ('run', [10, 20], {'depth': 1}), {'t': ([1], 2)},
+                # ('@FROZEN': a read-only mapping -- only the mapping is frozen, not the list it holds)
+                {'@FROZEN': {'tags': ['a'], 'n': 1}}, [{'@FROZEN': {'items': [[1]]}}]]
+
+
+def _realize(v):
+    """The value a description stands for ('@FROZEN' markers become AttributesFrozendict objects)."""
+    if isinstance(v, dict):
+        if '@FROZEN' in v:
+            return plumpy.utils.AttributesFrozendict({k: _realize(x) for k, x in v['@FROZEN'].items()})
+        return {k: _realize(x) for k, x in v.items()}
+    if isinstance(v, list):
+        return [_realize(x) for x in v]
+    if isinstance(v, tuple):
+        return tuple(_realize(x) for x in v)
+    return v
 FSTATES = ['pending', 'result', 'exception', 'cancelled', 'result-savable', 'exception-falsy']
 
 
@@ -217,7 +235,7 @@ def _mk_method(m):
 def make_value(owner, desc):
     kind = desc[0]
     if kind == 'plain':
-        return copy.deepcopy(desc[1])
+        return _realize(copy.deepcopy(desc[1]))
     if kind == 'method':
         return getattr(owner, desc[1])
     if kind == 'savable':
@@ -269,6 +287,9 @@ def _mutate_value(val):
     elif isinstance(val, tuple):
         for item in val:
             n += _mutate_value(item)
+    elif isinstance(val, plumpy.utils.Frozendict):
+        for item in val.values():
+            n += _mutate_value(item)
     return n
 
 
@@ -314,7 +335,8 @@ def compare(orig_desc_shape, new, path, obs, viol, V):
             continue
         val = getattr(new, name)
         if kind == 'plain':
-            if val != desc[1] or type(val) is not type(desc[1]):
+            want = _realize(desc[1])
+            if val != want or type(val) is not type(want) or (isinstance(want, list) and [type(x) for x in val] != [type(x) for x in want]):
                 viol.append(V('plain-differs', 'plain-differs:%s' % type(desc[1]).__name__, 'member %s is %r, saved %r' % (where, val, desc[1])))
         elif kind == 'method':
             if getattr(val, '__self__', None) is not new or val.__name__ != desc[1]:
@@ -436,6 +458,28 @@ def run_case(case):
             except BaseException as exc:  # noqa: BLE001
                 viol.append(V('unknown-class-error', 'unknown-class-error:shadow:%s' % type(exc).__name__, 'a class not importable under its name raised %r '
                               'instead of ValueError' % (exc,)))
+            # a class whose module is there but cannot be imported any more (something it imports was renamed since the state was saved):
+            # unknown all the same -- a ValueError to whoever loads
+            import tempfile
+            moddir = tempfile.mkdtemp(prefix='c19-mod-', dir=os.environ.get('PV_WORK') or None)
+            modname = 'pv_c19_broken_%d' % case['i']
+            with open(os.path.join(moddir, modname + '.py'), 'w') as fh:
+                fh.write('from os import a_name_that_was_renamed_since\n\nclass Thing:\n    pass\n')
+            sys.path.insert(0, moddir)
+            obs['unimportable_module_probes'] = 1
+            try:
+                broken = copy.deepcopy(state)
+                broken[persistence.META][persistence.META__CLASS_NAME] = '%s:Thing' % modname
+                res = Savable.load(broken)
+                viol.append(V('unknown-class-loaded', 'unknown-class-loaded:unimportable', 'a class of a module that cannot be imported produced %r instead of ValueError' % (res,)))
+            except ValueError:
+                pass
+            except BaseException as exc:  # noqa: BLE001
+                viol.append(V('unknown-class-error', 'unknown-class-error:unimportable:%s' % type(exc).__name__, 'a class whose module fails to import raised %r instead of ValueError' % (exc,)))
+            finally:
+                sys.path.remove(moddir)
+                sys.modules.pop(modname, None)
+                shutil.rmtree(moddir, ignore_errors=True)
             # an application's registry loader (a dictionary of names: an unknown name is a KeyError inside it) given in the load
             # context: the unknown class is a ValueError to whoever loads, like with any other loader
             obs['registry_loader_probes'] = 1
